@@ -687,10 +687,51 @@ def rule_guard(ctx) -> RuleResult:
     return res
 
 
-def _excludes_key(e, key) -> bool:
-    """The (closed) iterable / filter leaves the key out: `.. - {key}`, `k != key`, `k not in (.., key, ..)`."""
+def _surely_has_key(path, ev, obj, key) -> bool:
+    """The local dictionary `obj` certainly holds `key` when event `ev` happens: it was created with it (a display, or the result of
+    get_attributes(.., attributes={key: ..}) / of get_attributes over an object whose `_key` is not omitted) or the key was stored
+    into it, and nothing removed it since."""
+    has = False
+    for e in path.before(ev):
+        if e.maybe:
+            continue
+        if e.kind == "obj" and _t(e.expr) == obj:
+            v = e.value
+            has = isinstance(v, ast.Dict) and any(isinstance(k, ast.Constant) and k.value == key for k in v.keys)
+            if isinstance(v, ast.Call) and call_name(v) == "get_attributes":
+                kw = {k.arg: k.value for k in v.keywords}
+                start = kw.get("attributes", v.args[2] if len(v.args) > 2 else None)
+                omit = kw.get("omit_list", v.args[1] if len(v.args) > 1 else None)
+                given = isinstance(start, ast.Dict) and any(isinstance(k, ast.Constant) and k.value == key for k in start.keys)
+                literal = omit is None or isinstance(omit, (ast.List, ast.Tuple, ast.Set)) and all(isinstance(x, ast.Constant) for x in omit.elts)
+                harvested = key == "uid" and literal and not any(isinstance(x, ast.Constant) and x.value == "_" + key for x in ast.walk(omit or ast.Tuple(elts=[])))
+                has = given or harvested
+        elif e.kind == "store" and isinstance(e.expr, ast.Subscript) and _t(e.expr.value) == obj and isinstance(e.expr.slice, ast.Constant) and e.expr.slice.value == key:
+            has = True
+        elif e.kind == "del" and isinstance(e.expr, ast.Subscript) and _t(e.expr.value) == obj and (not isinstance(e.expr.slice, ast.Constant) or e.expr.slice.value == key):
+            has = False
+        elif e.kind == "call" and isinstance(e.expr.func, ast.Attribute) and _t(e.expr.func.value) == obj and e.expr.func.attr in ("pop", "clear", "popitem"):
+            if e.expr.func.attr != "pop" or not (e.expr.args and isinstance(e.expr.args[0], ast.Constant) and e.expr.args[0].value != key):
+                has = False
+    return has
+
+
+def _excludes_key(e, key, has_key=lambda obj: False) -> bool:
+    """The (closed) iterable / filter leaves the key out: `.. - {key}`, `.. - d.keys()` with d a dictionary that surely holds the key,
+    `k != key`, `k not in (.., key, ..)`, `k not in d`."""
+    def holds(x):
+        if any(isinstance(c, ast.Constant) and c.value == key for c in ast.walk(x)):
+            return True
+        if isinstance(x, ast.Call) and isinstance(x.func, ast.Attribute) and x.func.attr == "keys" and not x.args:
+            x = x.func.value
+        if isinstance(x, ast.Call) and isinstance(x.func, ast.Name) and x.func.id in ("set", "list", "tuple", "frozenset") and len(x.args) == 1:
+            x = x.args[0]
+        return isinstance(x, ast.Name) and has_key(x.id)
+
     for x in ast.walk(e):
-        if isinstance(x, ast.BinOp) and isinstance(x.op, ast.Sub) and any(isinstance(c, ast.Constant) and c.value == key for c in ast.walk(x.right)):
+        if isinstance(x, ast.BinOp) and isinstance(x.op, ast.Sub) and holds(x.right):
+            return True
+        if isinstance(x, ast.Compare) and len(x.ops) == 1 and isinstance(x.ops[0], ast.NotIn) and holds(x.comparators[0]):
             return True
         if isinstance(x, ast.Compare) and len(x.ops) == 1 and isinstance(x.ops[0], (ast.NotEq, ast.NotIn)) \
                 and any(isinstance(c, ast.Constant) and c.value == key for c in ast.walk(x.comparators[0])):
@@ -719,10 +760,14 @@ def _guard_type_uid(ctx, res):
                                                              if k.arg is None and isinstance(k.value, ast.Dict) else []) if isinstance(v, ast.Name)}
         for ev in path.before(made):
             ok = None
+
+            def has(obj, ev=ev):
+                return _surely_has_key(path, ev, obj, "uid")
+
             if ev.kind == "call" and isinstance(ev.expr.func, ast.Attribute) and ev.expr.func.attr == "update" and _t(ev.expr.func.value) in types:
                 for a in ev.expr.args:
                     if isinstance(a, (ast.GeneratorExp, ast.ListComp, ast.DictComp)) and from_caller(a):
-                        ok = _excludes_key(a, "uid")
+                        ok = _excludes_key(a, "uid", has)
                     elif isinstance(a, ast.Name) and a.id == kwargs:
                         ok = False
             elif ev.kind == "store" and isinstance(ev.expr, ast.Subscript) and _t(ev.expr.value) in types and not isinstance(ev.expr.slice, ast.Constant):
@@ -730,9 +775,11 @@ def _guard_type_uid(ctx, res):
                 loop = path.trace[k] if k is not None else None
                 if from_caller(ev.value) or (loop is not None and from_caller(loop.expr)):
                     key = _t(ev.expr.slice)
-                    ok = (loop is not None and loop.expr is not None and _excludes_key(loop.expr, "uid")) or any(
+                    ok = (loop is not None and loop.expr is not None and _excludes_key(loop.expr, "uid", has)) or any(
                         not pol and isinstance(c, ast.Compare) and isinstance(c.ops[0], (ast.Eq, ast.In)) and _t(c.left) == key
-                        and any(isinstance(x, ast.Constant) and x.value == "uid" for x in ast.walk(c.comparators[0])) for c, pol in path.conds_before(ev))
+                        and (any(isinstance(x, ast.Constant) and x.value == "uid" for x in ast.walk(c.comparators[0]))
+                             or isinstance(c.ops[0], ast.In) and _excludes_key(ast.Compare(left=c.left, ops=[ast.NotIn()], comparators=c.comparators), "uid", has))
+                        for c, pol in path.conds_before(ev))
             if ok is not None:
                 s_ = sites.setdefault(id(ev.node), {"ev": ev, "ok": True})
                 s_["ok"] &= ok
@@ -968,8 +1015,8 @@ def rule_typekind(ctx) -> RuleResult:
                 continue
             n += 1
             facts = list(sel) + (path.conds_before(ret) if ret is not None else [])
-            ok &= any(pol and isinstance(c, ast.Call) and call_name(c) == "isinstance" and len(c.args) == 2 and _t(c.args[0]) == _t(v) and _t(c.args[1]) == klass
-                      for c, pol in facts)
+            ok &= any(pol and isinstance(c, ast.Call) and call_name(c) == "isinstance" and len(c.args) == 2 and _t(c.args[1]) == klass
+                      and _t(v) in {_t(a) for a, _ in _alternatives(c.args[0])} for c, pol in facts)
     res.inst("Workspace.find_type returns the registered type only when it is an instance of the class asked for", nontrivial=True, ok=ok and n > 0)
     if not (ok and n):
         res.find("Workspace", "find_type", "a type is returned without the test of its class", ft.where,
